@@ -96,7 +96,7 @@ func newE2E(w *world, pki *e2ePKI, withTLS bool) (*e2eEnv, error) {
 		e.close()
 		return nil, err
 	}
-	e.extR.Cfg.Servers = []string{addr.IP.String()}
+	e.extR.Cfg.Servers = dnsServers(addr.IP.String())
 	e.extR.Cfg.Port = strconv.Itoa(addr.Port)
 
 	cfg := smtpd.Config{ListenAddr: "127.0.0.1:0", Hostname: mxName, PIPELINING: true, EightBitMIME: true}
@@ -252,6 +252,10 @@ func e2eGroup(t *testing.T, r *rep.Reporter, w *world) {
 							c.Violation("e2e/record-exists-no-tls-not-refused/"+kindClass(ks), "a TLSA record is published for the MX and TLS was not negotiated, but message content was sent: "+label, wit)
 						}
 					case !withTLS:
+						if !content && envFailure(outcome) {
+							r.Count("env_io_timeout(not judged)", 1)
+							break
+						}
 						if !content {
 							c.Violation("e2e/no-records-refused/plaintext", "no TLSA record exists, DANE is the only policy, yet the plaintext delivery was refused: "+outcome, wit)
 						}
@@ -266,6 +270,10 @@ func e2eGroup(t *testing.T, r *rep.Reporter, w *world) {
 							r.Count("e2e_authenticated_delivered", 1)
 						} else {
 							r.Count("e2e_absent_or_only_unusable_over_tls", 1)
+						}
+						if !content && envFailure(outcome) {
+							r.Count("env_io_timeout(not judged)", 1)
+							break
 						}
 						if !content {
 							c.Violation("e2e/refused-without-cause/"+tlsTag+"/"+kindClass(ks), "absent, exclusively unusable or matching records must not cause a refusal of a TLS connection, yet nothing was delivered ("+outcome+"): "+label, wit)
